@@ -38,7 +38,11 @@ def afm_fragment(rng, n_feat):
                 mn, mx = rng.choice(M.cards(size, True))
             f['relations'].append({'min': mn, 'max': mx, 'children': kids})
         return f
-    return {'root': mk([n_feat], 0), 'ctcs': []}
+    d = {'root': mk([n_feat], 0), 'ctcs': []}
+    if not d['root']['relations']:
+        # the AFM grammar has no way to write a root without children ("R : ;" is a syntax error): not an AFM model
+        return afm_fragment(rng, max(n_feat, 2))
+    return d
 
 
 class AFMWriterWithAttrs(AFMWriter):
